@@ -667,17 +667,29 @@ impl<'s, 'd> ProgGen<'s, 'd> {
     /// comp (pair witness rest) (case l r): the witness chooses the branch.
     fn witness_case(&mut self, a: &Arc<RTy>, b: &Arc<RTy>, depth: usize) -> Id {
         let w = self.cfg.max_mid_width;
-        let x = gen_ty(self.src, w / 2, 8);
-        let y = gen_ty(self.src, w / 2, 8);
-        let z = if self.src.bool() && a.width <= 4 * w { a.clone() } else { RTy::unit() };
+        // a small palette of selector types makes it likely that an earlier case node of the
+        // same arrow exists and is re-used: the same case node reached with different choices
+        let palette = self.src.bool();
+        let (x, y) = if palette {
+            let pick = |s: &mut Src| if s.bool() { RTy::unit() } else { RTy::two() };
+            (pick(self.src), pick(self.src))
+        } else {
+            (gen_ty(self.src, w / 2, 8), gen_ty(self.src, w / 2, 8))
+        };
+        let z = if !palette && self.src.bool() && a.width <= 4 * w { a.clone() } else { RTy::unit() };
         let sum = RTy::sum(x.clone(), y.clone());
         let m = RTy::prod(sum.clone(), z.clone());
         let sel = self.push(Ir::Witness, a, &sum);
         let rest = self.expr(a, &z, depth + 1);
         let p = self.push(Ir::Pair(sel, rest), a, &m);
-        let l = self.expr(&RTy::prod(x, z.clone()), b, depth + 1);
-        let r = self.expr(&RTy::prod(y, z), b, depth + 1);
-        let c = self.push(Ir::Case(l, r), &m, b);
+        let c = match self.reuse(&m, b) {
+            Some(c) => c,
+            None => {
+                let l = self.expr(&RTy::prod(x, z.clone()), b, depth + 1);
+                let r = self.expr(&RTy::prod(y, z), b, depth + 1);
+                self.push(Ir::Case(l, r), &m, b)
+            }
+        };
         self.push(Ir::Comp(p, c), a, b)
     }
 
